@@ -120,9 +120,9 @@ def run_string_case(env, res, seed, index):
             r = ocls(s)
             mon.violation('mismatched dimensions accepted', f'{ocls.__name__}({s!r}) returned {r!r}')
         except SI.DimensionError:
-            res.count('rejected_dimension_mismatch')
+            res.count('typed_constructor_mismatch_rejected')
         except Exception as e:
-            res.count('rejected_other_exception')
+            res.count('typed_constructor_mismatch_rejected')
             res.add('rejected_other_exception_types', f'typed constructor: {type(e).__name__}')
     # stringly / ags round trips are documented as returning the parsed text
     if vec:
